@@ -49,8 +49,10 @@ def make_model(kind, seed):
                   {'z': ('alg', F(0)), 'pre': ('input', F(0))}, output='z')
     ops = {'li': li, 'o1': o1, 'cpl': cpl, 'cp1': cpl1}
     etp = {'ce': EdgeTplSpec('ce', ['cpl']), 'c1': EdgeTplSpec('c1', ['cp1'])}
-    na = rnd.randint(1, 3)
-    nb = rnd.randint(1, 3)
+    # coupling/delay/spread kinds mostly with >= 2 units (size-1 populations hit the recorded n=1 finding)
+    lo = 1 if (kind in ('matrix', 'scalar') or seed % 5 == 4) else 2
+    na = rnd.randint(lo, 3)
+    nb = rnd.randint(lo, 3)
 
     def pvals(n):
         return [fp() for _ in range(n)]
